@@ -71,6 +71,24 @@ def one_model_cpp(chk, binary, name, model, em, cfg, stats):
     viol, st = bgrun.judge(em, model, res, only_roots=ok_roots)
     sv, ns = bgrun.judge_sizes(em, model, res.get("sizes", {}), "C++")
     st["sizes_compared"] = ns
+    # the member a user calls: the entry's own name; only when two traits *of the same group* share it, the trait's name is put in front
+    # (module documentation of cglue-bindgen's C++ generator)
+    named = 0
+    for c in res["calls"]:
+        if c["nlog"] != 1 or c["recs"][0][0] != c["root"]:
+            continue
+        x = em.roots[c["root"]]
+        ti, si = c["recs"][0][1], c["recs"][0][2]
+        if ti >= len(x["vtables"]):
+            continue
+        tname = x["vtables"][ti][0]
+        mname = model.traits[tname].methods[si].name
+        clash = x["kind"] == "group" and any(mm.name == mname for t2, _, _ in x["vtables"] if t2 != tname for mm in model.traits[t2].methods)
+        want = (tname.lower() + "_" + mname) if clash else mname
+        named += 1
+        if c["w"] != want:
+            viol.append(("C17:member-name", "entry %s::%s of %s %s is offered as member `%s`, documented name `%s`" % (tname, mname, x["kind"], x["name"], c["w"], want)))
+    st["member_names_checked"] = named
     for sig, d in viol + [("C17:" + s, d) for s, d in sv]:
         sig = sig.replace("C17:", "C17:cpp:", 1)
         if sig not in seen:
